@@ -82,7 +82,7 @@ def do_phase(fx, phase, rnd, box):
             fx.leave("g0", "abrupt")
             box["left"] = "g0"
         elif phase == "bad":
-            fx.misbehave(rnd.choice(["random_bytes", "truncated_packet", "huge_length", "garbage_payload", "half_header"]), rnd)
+            fx.misbehave(rnd.choice(["random_bytes", "truncated_packet", "huge_length", "garbage_payload", "half_header", "poison_reply"]), rnd)
         elif phase == "close":
             fx.server_close()
     except Exception as ex:  # noqa
